@@ -288,11 +288,11 @@ Ltac lock_fin L1 L2 :=
 
 (* one item of Close's loop over the registered connections *)
 Lemma inv_close_item g i c todo :
-  Inv g -> getc g i = Some c -> cl g = ClHolding todo -> mem_nat i todo = true ->
+  Inv g -> getc g i = Some c -> cl g = ClHolding todo ->
   Inv (mkg (closing g) (mu g) (cnt g) (regs g) (upd (conns g) i (mark_closed c)) (sd g)
            (ClHolding (remove_nat i todo)) (sv g) (lopen g) (ctx_exp g)).
 Proof.
-  intros [Hcnt Hnd Hregs Hconn Hlock Hlate] Hg Ecl Em.
+  intros [Hcnt Hnd Hregs Hconn Hlock Hlate] Hg Ecl.
   constructor; cbn.
   - rewrite (count_pc_upd counted _ _ _ (mark_closed c) Hg). cbn. lia.
   - assumption.
@@ -314,27 +314,6 @@ Proof.
     split; [exact L1|]. split; [|split; assumption].
     split; [intros _; eexists; reflexivity|]. intros _. apply L2. eexists; reflexivity.
   - unfold late_ok in *; cbn. rewrite (n_late_upd _ _ _ (mark_closed c) Hg) by reflexivity. exact Hlate.
-Qed.
-
-(* an item of Close's loop that finds the connection closed already *)
-Lemma inv_silent_close_item g i c todo :
-  Inv g -> getc g i = Some c -> cl g = ClHolding todo -> sock_closed c = true ->
-  Inv (mkg (closing g) (mu g) (cnt g) (regs g) (conns g) (sd g)
-           (ClHolding (remove_nat i todo)) (sv g) (lopen g) (ctx_exp g)).
-Proof.
-  intros [Hcnt Hnd Hregs Hconn Hlock Hlate] Hg Ecl Hsc.
-  constructor; cbn; try assumption.
-  - intros j cj Hj. change (getc g j = Some cj) in Hj.
-    destruct (Hconn _ _ Hj) as (H1 & H2 & H3 & H4 & H5 & H6 & H7 & H8).
-    unfold conn_ok, cl_finished in *; cbn. rewrite Ecl in *.
-    repeat split; intros; try discriminate; auto; use_acc.
-    match goal with Ht : ClHolding _ = ClHolding _ |- _ => inv_some Ht end.
-    destruct (Nat.eq_dec i j) as [->|Hne].
-    + right. rewrite Hg in Hj. inv_some Hj. assumption.
-    + destruct (H7 _ eq_refl) as [Hm|Hm]; auto. left. apply mem_remove_other; assumption.
-  - unfold lock_ok in *; cbn. rewrite Ecl in Hlock. destruct Hlock as (L1 & L2 & L3 & L4).
-    split; [exact L1|]. split; [|split; assumption].
-    split; [intros _; eexists; reflexivity|]. intros _. apply L2. eexists; reflexivity.
 Qed.
 
 Ltac frame := eapply inv_frame; [eassumption|try reflexivity..].
@@ -424,11 +403,7 @@ Proof.
     destruct (hstep (closing g) c (SockClose i)) as [c'|] eqn:Hh; [|discriminate]. inv_some Hs. eapply inv_setc; eauto.
   - (* SockCloseC *) destruct (getc g i) as [c|] eqn:Hg; [|discriminate].
     destruct (cl g) as [| |todo| |] eqn:Ecl; try discriminate.
-    destruct (mem_nat i todo) eqn:Em; [|discriminate]. inv_some Hs. eapply inv_close_item; eauto.
-  - (* TSilentCloseC *) destruct (getc g i) as [c|] eqn:Hg; [|discriminate].
-    destruct (cl g) as [| |todo| |] eqn:Ecl; try discriminate.
-    destruct (mem_nat i todo && sock_closed c) eqn:Em; [|discriminate]. inv_some Hs.
-    apply andb_true_iff in Em as [_ Em]. eapply inv_silent_close_item; eauto.
+    destruct (mem_nat i todo || mem_nat i (regs g)) eqn:Em; [|discriminate]. inv_some Hs. eapply inv_close_item; eauto.
   - (* TSilentClose *) destruct (getc g i) as [c|] eqn:Hg; [|discriminate].
     destruct (hstep (closing g) c (TSilentClose i)) as [c'|] eqn:Hh; [|discriminate]. inv_some Hs. eapply inv_setc; eauto.
   - (* TDec *) destruct (getc g i) as [c|] eqn:Hg; [|discriminate]. destruct (pc c) eqn:Epc; try discriminate. inv_some Hs.
